@@ -431,6 +431,9 @@ pub struct World {
     /// connections that were handed a datagram whose last 16 bytes are the reset token the peer
     /// endpoint issued for the connection ID the connection was sending to at that moment
     pub exact_reset_seen: std::collections::BTreeSet<usize>,
+    /// connections for which an injected datagram carried, when it arrived at their endpoint, the reset
+    /// token of the connection ID they were sending to (whatever the endpoint then did with it)
+    pub exact_reset_offered: std::collections::BTreeSet<usize>,
     /// (n, hold_us): the n-th Incoming (counted over all server endpoints, after Retry handling) is held
     /// for `hold_us` and then accepted with a server configuration whose idle timeout is shorter than
     /// that, so that `Endpoint::accept` abandons it as stale
@@ -534,7 +537,7 @@ impl World {
             cur_rx_dgram: 0,
             attacks: vec![],
             attack_log: vec![],
-            attack_tails: vec![], exact_reset_seen: Default::default(), stale_accepts: vec![], corrupt_first_of: Default::default(), conn_emitted: Default::default(), incoming_seen: 0, stale_due: vec![], stale_abandoned: 0,
+            attack_tails: vec![], exact_reset_seen: Default::default(), exact_reset_offered: Default::default(), stale_accepts: vec![], corrupt_first_of: Default::default(), conn_emitted: Default::default(), incoming_seen: 0, stale_due: vec![], stale_abandoned: 0,
             last_incoming_size: 0,
             check_amp: true,
             client_token_store: None,
@@ -1312,6 +1315,17 @@ impl World {
         let now = self.now_instant();
         let mut buf = Vec::new();
         let size = f.bytes.len();
+        if f.injected && size >= 21 {
+            let tail = &f.bytes[size - 16..];
+            for k in 0..self.conns.len() {
+                if self.conns[k].ep == ep && !self.conns[k].gone {
+                    let rc = self.conns[k].c.verif_remote_cid();
+                    if !rc.is_empty() && (0..self.eps.len()).any(|e| e != ep && self.reset_token_for(e, &rc)[..] == *tail) {
+                        self.exact_reset_offered.insert(k);
+                    }
+                }
+            }
+        }
         self.cur_rx_dgram = f.dgram_id;
         let ev = self.eps[ep].ep.handle(now, f.from, None, f.ecn, BytesMut::from(&f.bytes[..]), &mut buf);
         let routed = match ev {
